@@ -12,7 +12,7 @@
 (* File format: NDJSON, one event per line; many runs per file, each       *)
 (* starting with a "setup" event.                                          *)
 (***************************************************************************)
-EXTENDS System, Json, IOUtils
+EXTENDS Library, Json, IOUtils
 
 Rec == ndJsonDeserialize(IOEnv.TRACE)
 
@@ -20,7 +20,7 @@ VARIABLES l,        \* index of the next event
           obs,      \* what the code itself reported for this run: [pres, vres] ("" = not yet)
           pool      \* C07: the specification's individual results of the runs since the last batch_begin
 
-tvars == << vars, l, obs, pool >>
+tvars == << lvars, l, obs, pool >>
 NoObs == [pres |-> "", vres |-> ""]
 
 Has(r, f) == f \in DOMAIN r
@@ -52,6 +52,12 @@ CmpR == "CMP_R" \in DOMAIN IOEnv /\ IOEnv.CMP_R = "1"
 \*   CMP_B  (C09) the part of CMP_P that does not depend on how constraints are weighted: the RNG draw count and the six witness-bearing
 \*          / masking commitments and e_blinding equal the reference prover's (witness part + its own draw * B~)
 CmpB == "CMP_B" \in DOMAIN IOEnv /\ IOEnv.CMP_B = "1"
+\*   CMP_G  (C12, C17) generator tables: stored content, capacities, views; the table a role proves / verifies with
+\*   CMP_C  (C11) the encoding: token stream and size of to_bytes, result of from_bytes
+\*   CMP_K  (C17) prove / verify report InvalidGeneratorsLength exactly when the specification does (nothing else about the result)
+CmpK == "CMP_K" \in DOMAIN IOEnv /\ IOEnv.CMP_K = "1"
+CmpG == Flag("CMP_G")
+CmpC == Flag("CMP_C")
 BlindFields(pf) == << pf.AI1, pf.AO1, pf.S1, pf.AI2, pf.AO2, pf.S2, pf.eb >>
 
 (* does a recorded transcript operation equal the operation the model performs? *)
@@ -103,7 +109,7 @@ CallOf(r) ==
   THEN [op |-> "con", lc |-> ExprTerms(r.e) \o (IF Has(r, "c") THEN FromConst(r.c) ELSE << >>)]
   ELSE r
 
-TraceInit == Init /\ l = 1 /\ obs = NoObs /\ pool = << >>
+TraceInit == Init /\ LibInit /\ l = 1 /\ obs = NoObs /\ pool = << >>
 
 TraceSetup ==
   /\ IsEvent("setup")
@@ -139,6 +145,7 @@ Appended(label) ==
 
 TraceProve1 ==
   /\ IsEvent("prove1") /\ ~degen
+  /\ CmpG => GensBound("P", Ev.cap)
   /\ ProveStart(Ev.cap, Draws, [AI1 |-> Appended("A_I1"), AO1 |-> Appended("A_O1"), S1 |-> Appended("S1")])
   /\ (CmpP \/ CmpB) => (RngOk(out'.used) /\ mid'.P.em = out'.ref)
   /\ OpsMatch(Ev.tx, NewOps("P"))
@@ -148,6 +155,7 @@ EmittedProof == IF Has(Ev, "proof") THEN Ev.proof ELSE NoProof
 ProveOutcome ==
   \/ degen'                                   \* zero challenge: the code panics or errs; nothing is demanded
   \/ /\ CmpE => res'.P = Ev.res
+     /\ CmpK => ((Ev.res = "InvalidGeneratorsLength") <=> (res'.P = "InvalidGeneratorsLength"))
      /\ (CmpR /\ Ev.res = "ok") => Ev.ext_taken = 32      \* finalize keyed the RNG with 32 bytes of the caller's randomness
      /\ OpsMatch(Ev.tx, NewOps("P"))
      /\ (CmpP /\ res'.P = "ok") => (RngOk(out'.used) /\ wire' = out'.ref)
@@ -155,11 +163,13 @@ ProveOutcome ==
 
 TraceProve2 ==
   /\ IsEvent("prove2") /\ ~degen
+  /\ CmpG => GensBound("P", Ev.cap)
   /\ \/ ProveFinish(Ev.cap, Draws, ChVals(Ev.tx), EmittedProof) /\ ProveOutcome
      \/ ProveAbort /\ (CmpE => res'.P = Ev.res) /\ (CmpO => Ev.tx = << >>)
 
 TraceProve ==
   /\ IsEvent("prove") /\ ~degen
+  /\ CmpG => GensBound("P", Ev.cap)
   /\ Prove(Ev.cap, Draws, ChVals(Ev.tx), EmittedProof)
   /\ ProveOutcome
 
@@ -169,6 +179,7 @@ TraceWire ==
 
 TraceVerify1 ==
   /\ IsEvent("verify1") /\ ~degen
+  /\ CmpG => GensBound("V", Ev.cap)
   /\ VerifyStart
   /\ OpsMatch(Ev.tx, NewOps("V"))
 
@@ -186,15 +197,18 @@ RefExplains ==
 VerifyOutcome ==
   \/ degen'
   \/ /\ CmpV => (res'.V = Ev.res /\ RefExplains)
+     /\ CmpK => ((Ev.res = "InvalidGeneratorsLength") <=> (res'.V = "InvalidGeneratorsLength"))
      /\ OpsMatch(Ev.tx, NewOps("V"))
 
 TraceVerify2 ==
   /\ IsEvent("verify2") /\ ~degen
+  /\ CmpG => GensBound("V", Ev.cap)
   /\ \/ VerifyFinish(Ev.cap, ChVals(Ev.tx)) /\ VerifyOutcome
      \/ VerifyAbort /\ (CmpV => res'.V = Ev.res) /\ (CmpO => Ev.tx = << >>)
 
 TraceVerify ==
   /\ IsEvent("verify") /\ ~degen
+  /\ CmpG => GensBound("V", Ev.cap)
   /\ Verify(Ev.cap, ChVals(Ev.tx))
   /\ VerifyOutcome
 
@@ -212,6 +226,44 @@ TraceGates ==
 
 \* decoding of a tampered encoding failed: the verifier never ran
 TraceDecode == IsEvent("decode") /\ ~degen /\ UNCHANGED vars
+
+(* Library: the life of a role's generator table.  The event carries the table as stored after the step (or the view returned). *)
+Content == [G |-> Ev.G, H |-> Ev.H]
+TraceGens ==
+  /\ IsEvent("gens") /\ ~degen
+  /\ IF ~CmpG
+     THEN \* not compared: the table is taken as reported
+          /\ gens' = [gens EXCEPT ![Ev.role] = [parties |-> Ev.parties, cap |-> Ev.cap]]
+          /\ UNCHANGED << vars, chain, enc >>
+     ELSE /\ \/ Ev.g = "new" /\ GensNew(Ev.role, Ev.argparties, Ev.argcap, Content)
+             \/ Ev.g = "inc" /\ GensIncrease(Ev.role, Ev.argcap, Content)
+             \/ Ev.g \in {"ser", "clone"} /\ GensCopy(Ev.role, Content)
+             \/ Ev.g = "view" /\ Has(Ev, "ret") /\ GensView(Ev.role, Ev.kind, Ev.n, Ev.m, Ev.ret)
+          \* the public capacity fields say what the table holds
+          /\ Ev.cap = gens'[Ev.role].cap /\ Ev.parties = gens'[Ev.role].parties
+          /\ Ev.g # "view" => (Ev.rawcap = Ev.cap /\ Ev.rawparties = Ev.parties)
+
+(* Library: the proof as bytes.  encode: what to_bytes produced; wirebytes: what the adversary made of it; decodeb: what from_bytes returned *)
+KRounds == Lg(Pad2(PLen(cs.P)))
+TraceEncode ==
+  /\ IsEvent("encode") /\ ~degen
+  /\ Encode
+  /\ CmpC => /\ Ev.toks = enc'
+             /\ Ev.trail = 0 /\ Ev.again                                                      \* nothing else in the encoding; deterministic
+             /\ Ev.len = EncSize(Len(wire.L), Len(wire.R), Rec[1].cptlen, Rec[1].csclen)       \* size = layout
+             /\ (~degen /\ wire = out.ref) => (Len(wire.L) = KRounds /\ Len(wire.R) = KRounds)  \* k = log2 of the padded gate count
+TraceWireBytes ==
+  /\ IsEvent("wirebytes") /\ ~degen
+  /\ TamperBytes(Ev.toks)
+TraceDecodeB ==
+  /\ IsEvent("decodeb") /\ ~degen
+  /\ IF CmpC
+     THEN /\ DecodeBytes
+          /\ Ev.res = (IF out'.err = "" THEN "ok" ELSE out'.err)
+          /\ Ev.res = "ok" => (Ev.proof = wire' /\ Ev.reenc)          \* the object the stream spells; it re-encodes to the bytes read
+     ELSE /\ wire' = IF Ev.res = "ok" THEN Ev.proof ELSE NoProof
+          /\ out' = NoOut
+          /\ UNCHANGED << env, cs, tr, ph, mid, sent, res, cberr, degen, gens, chain, enc >>
 
 \* after a degenerate event nothing is demanded until the next run starts
 TraceSkip ==
@@ -234,16 +286,19 @@ TraceBatch ==
         /\ (Ev.res = "ok" /\ \E i \in 1 .. Len(pool) : pool[i].ores # "ok") => Ev.res = BatchVerdict(pool, Ev.alphas)
   /\ pool' = << >> /\ UNCHANGED << vars, obs >>
 
+LibSame == UNCHANGED << gens, chain, enc >>
 TraceNext ==
-  \/ TraceSetup /\ obs' = NoObs /\ UNCHANGED pool
+  \* a new run: new tables, nothing encoded; what is known of the generator function stays (it is one function for the process)
+  \/ TraceSetup /\ obs' = NoObs /\ UNCHANGED << pool, chain >> /\ gens' = [P |-> NoTable, V |-> NoTable] /\ enc' = << >>
   \/ (TraceNew \/ TraceCall \/ TraceProve1 \/ TraceVerify1 \/ TraceWire \/ TraceDecode \/ TraceGates \/ TraceSkip)
-       /\ UNCHANGED << obs, pool >>
-  \/ TraceEnd /\ UNCHANGED obs
+       /\ UNCHANGED << obs, pool >> /\ LibSame
+  \/ (TraceGens \/ TraceEncode \/ TraceWireBytes \/ TraceDecodeB) /\ UNCHANGED << obs, pool >>
+  \/ TraceEnd /\ UNCHANGED obs /\ LibSame
        /\ pool' = IF res.V = "" THEN pool ELSE Append(pool, [res |-> res.V, alg |-> out.ref, degen |-> FALSE, ores |-> obs.vres])
-  \/ (degen /\ IsEvent("end") /\ UNCHANGED << vars, obs >> /\ pool' = Append(pool, [res |-> "", alg |-> << >>, degen |-> TRUE, ores |-> obs.vres]))
-  \/ (TraceProve2 \/ TraceProve) /\ obs' = [obs EXCEPT !.pres = Ev.res] /\ UNCHANGED pool
-  \/ (TraceVerify2 \/ TraceVerify) /\ obs' = [obs EXCEPT !.vres = Ev.res] /\ UNCHANGED pool
-  \/ TraceBatchBegin \/ TraceBatch
+  \/ (degen /\ IsEvent("end") /\ UNCHANGED << vars, obs >> /\ LibSame /\ pool' = Append(pool, [res |-> "", alg |-> << >>, degen |-> TRUE, ores |-> obs.vres]))
+  \/ (TraceProve2 \/ TraceProve) /\ obs' = [obs EXCEPT !.pres = Ev.res] /\ UNCHANGED pool /\ LibSame
+  \/ (TraceVerify2 \/ TraceVerify) /\ obs' = [obs EXCEPT !.vres = Ev.res] /\ UNCHANGED pool /\ LibSame
+  \/ (TraceBatchBegin \/ TraceBatch) /\ LibSame
 
 TraceSpec == TraceInit /\ [][TraceNext]_tvars
 
